@@ -279,7 +279,14 @@ class Pipeline(object):
         f2 = os.path.join(d, "c2.pkl")
         self.files = [f1, f2]
         c, probe = self.c, self.probe
-        C = lena.flow.Cache
+
+        def C(filename, recompute=False):
+            # the documented signature is Cache(filename, recompute=False, ...): the flag is
+            # given by keyword in some shapes and as the second positional argument in others
+            if shape in ("first", "last", "two", "bare", "source"):
+                return lena.flow.Cache(filename, recompute)
+            return lena.flow.Cache(filename, recompute=recompute)
+        C.alter_sequence = lena.flow.Cache.alter_sequence
         down = Down(c, down_raise_at, fault_exc)
         self.hoisted_type = None
         if shape == "seq":
